@@ -124,6 +124,9 @@ def unit_set(rnd):
         if r < 0.94:
             return [f'{k}={v}', f'{k}={alt}']
         return [f'{k}=', f'{k}={v}', f'{k}={alt}']
+    def like(v):
+        """a fifth of the object names end like a Quadlet file of some type: the name a unit resolves to is a podman name, not a reference"""
+        return v + rnd.choice(['.image', '.build', '.volume', '.network', '.container', '.pod']) if rnd.random() < 0.2 else v
     for st, ty in units:
         L = ['[' + SEC[ty] + ']']
         if rnd.random() < 0.3:
@@ -131,7 +134,7 @@ def unit_set(rnd):
         if ty == 'container':
             L.append('Image=' + rnd.choice(['localhost/i', ref('image'), ref('build')]))
             if rnd.random() < 0.3:
-                L += named('ContainerName', rnd.choice(['cn-' + st, '%p-x']))
+                L += named('ContainerName', rnd.choice([like('cn-' + st), '%p-x']))
             if st in member_of and rnd.random() < 0.85:
                 L.append('Pod=' + member_of[st])
             elif rnd.random() < 0.5:
@@ -166,7 +169,7 @@ def unit_set(rnd):
                 L.append('ExposeHostPort=' + rnd.choice(['80', 'bad']))
         elif ty == 'volume':
             if rnd.random() < 0.3:
-                L += named('VolumeName', 'vn-' + st)
+                L += named('VolumeName', like('vn-' + st))
             if rnd.random() < 0.3:
                 L += ['Driver=image', 'Image=' + rnd.choice([ref('image'), ref('build'), 'localhost/x'])]
             if rnd.random() < 0.1:
@@ -175,16 +178,16 @@ def unit_set(rnd):
                 L.append('Type=ext4')
         elif ty == 'network':
             if rnd.random() < 0.3:
-                L += named('NetworkName', 'nn-' + st)
+                L += named('NetworkName', like('nn-' + st))
             if rnd.random() < 0.15:
                 L.append('Gateway=10.0.0.1')
         elif ty == 'image':
             L.append('Image=' + rnd.choice(['quay.io/x/' + st.replace('@', ''), '']))
             if rnd.random() < 0.3:
-                L += named('ImageTag', 'localhost/tag-' + st.replace('@', ''))
+                L += named('ImageTag', like('localhost/tag-' + st.replace('@', '')))
         elif ty == 'build':
             if rnd.random() < 0.85:
-                L += named('ImageTag', 'localhost/built-' + st.replace('@', ''))
+                L += named('ImageTag', like('localhost/built-' + st.replace('@', '')))
             L.append('File=/opt/Containerfile')
             if rnd.random() < 0.4:
                 L.append('Volume=' + ref('volume') + ':/b')
